@@ -79,6 +79,21 @@ type gateAgent struct {
 	inflight    chan struct{}
 	release     chan struct{}
 	agentClosed atomic.Bool
+	// when pauseStart is set the next Start is held before it reaches the agent
+	pauseStart   atomic.Bool
+	startPaused  chan struct{}
+	startRelease chan struct{}
+}
+
+func (g *gateAgent) Start(id [stun.TransactionIDSize]byte, deadline time.Time) error {
+	if g.pauseStart.CompareAndSwap(true, false) {
+		g.startPaused <- struct{}{}
+		select {
+		case <-g.startRelease:
+		case <-time.After(8 * time.Second):
+		}
+	}
+	return g.Agent.Start(id, deadline)
 }
 
 func (g *gateAgent) SetHandler(h stun.Handler) error {
@@ -369,7 +384,7 @@ func execClientHistory(o *out, f [][]int) []int {
 		failInst: map[int]bool{}, clock: clock, h: h, unblock: make(chan struct{})}
 	coll := &manualCollector{}
 	var lastDatagram []byte
-	gate := &gateAgent{Agent: stun.NewAgent(nil), inflight: make(chan struct{}, 1), release: make(chan struct{})}
+	gate := &gateAgent{Agent: stun.NewAgent(nil), inflight: make(chan struct{}, 1), release: make(chan struct{}), startPaused: make(chan struct{}, 1)}
 	opts := []stun.ClientOption{stun.WithClock(clock), stun.WithCollector(coll), stun.WithRTO(time.Duration(cfg[0])), stun.WithAgent(gate)}
 	if cfg[1] == 0 {
 		opts = append(opts, stun.WithNoRetransmit)
@@ -402,7 +417,9 @@ func execClientHistory(o *out, f [][]int) []int {
 	nextInst := 0
 	closed := false
 	var obs []int
-	for _, op := range f[1:] {
+	aborted := false
+	var execOp func(op []int)
+	execOp = func(op []int) {
 		switch op[0] {
 		case 1: // Start / Do
 			id, hid := op[1], op[2]
@@ -565,6 +582,34 @@ func execClientHistory(o *out, f [][]int) []int {
 				conn.failInst[i] = true
 			}
 			conn.mu.Unlock()
+		case 13:
+			// Start held between the client's own checks and the agent's Start while Close runs to completion; when
+			// Start fails before it gets that far the two calls simply follow each other
+			startOp := append([]int{1}, op[1:]...)
+			gate.startRelease = make(chan struct{})
+			gate.pauseStart.Store(true)
+			startDone := make(chan struct{})
+			go func() { execOp(startOp); close(startDone) }()
+			paused := false
+			select {
+			case <-gate.startPaused:
+				paused = true
+			case <-startDone:
+				gate.pauseStart.Store(false)
+			case <-time.After(5 * time.Second):
+				o.fail("start-stuck", h.line)
+				gate.pauseStart.Store(false)
+			}
+			execOp([]int{8})
+			if paused {
+				close(gate.startRelease)
+				select {
+				case <-startDone:
+				case <-time.After(5 * time.Second):
+					o.failFor("C10", "start-does-not-return", h.line)
+					aborted = true
+				}
+			}
 		case 8, 9, 10:
 			// 9 / 10: Close while the events of a tick / of a datagram are in flight (held at the gate)
 			held := false
@@ -648,7 +693,8 @@ func execClientHistory(o *out, f [][]int) []int {
 					case <-time.After(5 * time.Second):
 						o.failFor("C15", "close-did-not-return", h.line)
 						clientStuck.Add(1)
-						return append(obs, 777)
+						aborted = true
+						return
 					}
 				}
 			} else {
@@ -660,7 +706,8 @@ func execClientHistory(o *out, f [][]int) []int {
 				case <-time.After(5 * time.Second):
 					o.failFor("C15", "close-did-not-return", h.line)
 					clientStuck.Add(1)
-					return append(obs, 777) // the client is wedged: nothing after this can be observed
+					aborted = true
+					return
 				}
 			}
 			if cerr == nil {
@@ -690,6 +737,12 @@ func execClientHistory(o *out, f [][]int) []int {
 					o.failFor("C15", "second-close-not-ErrClientClosed", h.line)
 				}
 			}
+		}
+	}
+	for _, op := range f[1:] {
+		execOp(op)
+		if aborted {
+			return append(obs, 777) // the client is wedged: nothing after this can be observed
 		}
 		// Do returns once its handler has run
 		for inst, ch := range h.doWait {
@@ -885,6 +938,15 @@ func (g *clientGen) history(n int) []string {
 			case 3:
 				// another user of the agent holds an ID the client is going to use
 				fs = append(fs, fNums(11, r.pick([]int{1, 2, 3, 5, 9, 17, 257})))
+			case 5:
+				// a Start held between the client's checks and the agent while Close runs
+				wasClosed := g.closed
+				g.start(&fs, false)
+				fs[len(fs)-1] = "13," + strings.TrimPrefix(fs[len(fs)-1], "1,")
+				if !wasClosed && len(g.live) > 0 {
+					g.live = g.live[:len(g.live)-1] // never registered with the agent
+				}
+				g.closed = true
 			case 4:
 				// the application stops a transaction (mostly one in flight) through the shared agent
 				id := r.pick([]int{1, 2, 3, 5, 9, 17, 257})
@@ -954,9 +1016,9 @@ func runClientExhaustive(o *out, depth int) int {
 		}
 		rec(nil, 0, depth)
 		// the same with the application stopping transaction 1 or 2 through the shared agent, one level less
-		alphabet = append(alphabet, fNums(12, 1), fNums(12, 2))
+		alphabet = append(alphabet, fNums(12, 1), fNums(12, 2), withBytes([]int{13, 1, 3}, m1), withBytes([]int{13, 2, 4}, m2))
 		rec(nil, 0, depth-1)
-		alphabet = alphabet[:len(alphabet)-2]
+		alphabet = alphabet[:len(alphabet)-4]
 	}
 	return cnt
 }
@@ -1636,7 +1698,7 @@ func moreClientScenarios(o *out, r *rng) {
 			held: make(chan struct{}, 1), release: make(chan struct{}), idle: make(chan struct{}, 1)}
 		all := []stun.ClientOption{stun.WithClock(e.clock), stun.WithCollector(e.coll), stun.WithRTO(100)}
 		if withGate {
-			e.gate = &gateAgent{Agent: stun.NewAgent(nil), inflight: make(chan struct{}, 1), release: make(chan struct{})}
+			e.gate = &gateAgent{Agent: stun.NewAgent(nil), inflight: make(chan struct{}, 1), release: make(chan struct{}), startPaused: make(chan struct{}, 1)}
 			all = append(all, stun.WithAgent(e.gate))
 		}
 		c, err := stun.NewClient(e.conn, append(all, opts...)...)
